@@ -60,7 +60,7 @@ const c04Depth = image.DefaultMaxSymlinkDepth
 // ---------------------------------------------------------------------------------------
 
 const (
-	// A whiteout of P in layer j while the view below has an entry two or more levels
+	// A whiteout of P in layer j while an earlier layer has an entry two or more levels
 	// beneath P (P/x/y): listings hide it, direct lookup of P/x/y still succeeds.
 	clsDeepWhiteout = "c04.deep_whiteout_lookup"
 	// An opaque whiteout on a directory that has lower-layer children.
@@ -69,8 +69,9 @@ const (
 	clsDirReplaced = "c04.dir_replaced_by_file"
 	// A whiteout of P and an entry at or beneath P in the same layer.
 	clsSameLayer = "c04.whiteout_and_recreate_same_layer"
-	// P (with lower-layer children) is removed by a whiteout / opaque / non-directory in layer
-	// j and exists again as a directory in a LATER layer: the removed children come back.
+	// P (a directory with lower-layer children) is removed by a whiteout / opaque marker /
+	// non-directory in layer j and written again (any kind, also as an implicit parent) by a
+	// LATER layer: the removed children come back beneath it.
 	clsRecreateLater = "c04.removed_dir_recreated_later"
 	// A directory that carries an explicit entry (with its mode) in an earlier layer, or later
 	// in the same tar, is first met as the parent of another entry: its mode is lost.
@@ -79,6 +80,10 @@ const (
 	clsEmptiedDir = "c04.emptied_dir_pruned_in_final_view"
 	// An entry whose header name is absolute.
 	clsAbsName = "c04.absolute_entry_name"
+	// A regular file is turned into a directory only implicitly (a later layer has entries
+	// beneath it but none for the directory itself) and the final view has nothing but
+	// directories beneath it: the squashed unpacking still writes the old regular file.
+	clsUnpackStale = "c04.unpack_stale_file_under_implicit_dir"
 	// Path-set requirer: a regular file of the final view that is not retained is also part of
 	// an earlier view (same tar entry): pruning the final view deletes the shared backing file.
 	clsRequirerUnlinks = "c04.requirer_unlinks_file_of_earlier_view"
@@ -122,7 +127,8 @@ func c04Features(cs c04Case) (finding map[string]bool, labels map[string]bool, a
 	finding, labels = map[string]bool{}, map[string]bool{}
 	views := overlay.Views(cs.Image.Layers)
 	// removedAt[P] = true once P (a directory with children) was removed by a later layer.
-	removedDirs := map[string]bool{}
+	removedDirs := map[string]int{}
+	var fileToImplicit []string
 	for k, l := range cs.Image.Layers {
 		lower := overlay.NewView()
 		if k > 0 {
@@ -159,7 +165,7 @@ func c04Features(cs c04Case) (finding map[string]bool, labels map[string]bool, a
 				affectsLower = true
 				labels["whiteout_hits_lower"] = true
 				if lower[p].Kind == overlay.Dir && lower.HasDescendants(p) {
-					removedDirs[p] = true
+					removedDirs[p] = k
 				}
 			}
 			for q := range lower {
@@ -169,6 +175,15 @@ func c04Features(cs c04Case) (finding map[string]bool, labels map[string]bool, a
 						labels["whiteout_depth_ge2"] = true
 					} else {
 						labels["whiteout_depth_1"] = true
+					}
+				}
+			}
+			// the entry two levels beneath P may also have been deleted by a layer in between:
+			// it comes back all the same
+			for _, el := range cs.Image.Layers[:k] {
+				for _, ee := range el.Entries {
+					if eo := overlay.Interpret(ee); eo.Kind == overlay.OpPut && overlay.Under(eo.Path, p) && overlay.Depth(eo.Path) >= overlay.Depth(p)+2 {
+						finding[clsDeepWhiteout] = true
 					}
 				}
 			}
@@ -189,7 +204,7 @@ func c04Features(cs c04Case) (finding map[string]bool, labels map[string]bool, a
 				affectsLower = true
 				finding[clsOpaque] = true
 				labels["opaque_hits_lower"] = true
-				removedDirs[d] = true
+				removedDirs[d] = k
 			}
 		}
 		// type changes and implicit parents
@@ -201,7 +216,7 @@ func c04Features(cs c04Case) (finding map[string]bool, labels map[string]bool, a
 					labels["dir_to_nondir"] = true
 					if lower.HasDescendants(p) {
 						finding[clsDirReplaced] = true
-						removedDirs[p] = true
+						removedDirs[p] = k
 					}
 				case n.Kind != overlay.Dir && kind == tarimg.KindDir:
 					affectsLower = true
@@ -227,6 +242,9 @@ func c04Features(cs c04Case) (finding map[string]bool, labels map[string]bool, a
 				if n, ok := lower[a]; ok && n.Kind != overlay.Dir {
 					affectsLower = true
 					labels["nondir_to_implicit_dir"] = true
+					if n.Kind == overlay.File {
+						fileToImplicit = append(fileToImplicit, a)
+					}
 				}
 				if n, ok := views[k][a]; ok && n.Kind == overlay.Dir && !n.Implicit && n.Mode.Perm() != 0 {
 					// explicit below (not removed by this layer), implicit here
@@ -235,13 +253,24 @@ func c04Features(cs c04Case) (finding map[string]bool, labels map[string]bool, a
 			}
 		}
 		// whiteouts and opaque markers have implicit parents as well (the marker's directory)
-		markerParents := append([]string{}, opqs...)
-		for _, p := range whs {
-			markerParents = append(markerParents, path.Dir(p))
+		type marker struct {
+			dir string
+			idx int
 		}
-		for _, d := range markerParents {
-			for a := d; a != "/" && a != "."; a = path.Dir(a) {
-				if _, explicit := puts[a]; explicit {
+		var markers []marker
+		for _, d := range opqs {
+			markers = append(markers, marker{d, whOrder[d+"/"]})
+		}
+		for _, p := range whs {
+			markers = append(markers, marker{path.Dir(p), whOrder[p]})
+		}
+		for _, m := range markers {
+			for a := m.dir; a != "/" && a != "."; a = path.Dir(a) {
+				if ak, explicit := puts[a]; explicit {
+					if ak == tarimg.KindDir && putOrder[a] > m.idx && dirPerm(l, a) != 0 {
+						labels["dir_entry_after_child"] = true
+						finding[clsImplicitDirMode] = true
+					}
 					continue
 				}
 				if n, ok := views[k][a]; ok && n.Kind == overlay.Dir && !n.Implicit && n.Mode.Perm() != 0 {
@@ -249,36 +278,11 @@ func c04Features(cs c04Case) (finding map[string]bool, labels map[string]bool, a
 				}
 			}
 		}
-		// a directory removed (with children) by an EARLIER layer exists again as a directory
-		for p := range removedDirs {
-			n, ok := views[k][p]
-			if !ok || n.Kind != overlay.Dir {
-				continue
-			}
-			// removed in this very layer and re-created here: the same-layer class, or the
-			// opaque class (an opaque directory always still exists); later layers: this class.
-			removedHere := false
-			for _, w := range whs {
-				if w == p {
-					removedHere = true
-				}
-			}
-			for _, d := range opqs {
-				if d == p {
-					removedHere = true
-				}
-			}
-			if k2, isPut := puts[p]; isPut && k2 != tarimg.KindDir {
-				removedHere = true
-			}
-			if !removedHere {
+		// a directory removed (with its children) by an EARLIER layer j was written again by a
+		// layer after j: the removal is forgotten in the views from there on.
+		for p, j := range removedDirs {
+			if n, ok := views[k][p]; ok && k > j && n.Layer > j {
 				finding[clsRecreateLater] = true
-			}
-		}
-		for p := range removedDirs {
-			// forget directories that are gone and were not re-created, unless still absent
-			if _, ok := views[k][p]; ok && views[k][p].Kind == overlay.Dir {
-				continue
 			}
 		}
 	}
@@ -290,12 +294,7 @@ func c04Features(cs c04Case) (finding map[string]bool, labels map[string]bool, a
 			if nd.Kind != overlay.Dir || p == "/" || final.HasDescendants(p) || overlay.Depth(p) < 2 {
 				continue
 			}
-			for k := 0; k < n-1; k++ {
-				if o, ok := views[k][p]; ok && o.Kind == overlay.Dir && views[k].HasDescendants(p) {
-					finding[clsEmptiedDir] = true
-				}
-			}
-			// also: marker files of the same layer are the only "children"
+			// some layer put a marker file directly into it: whiteout nodes are its only children
 			for _, l := range cs.Image.Layers {
 				for _, e := range l.Entries {
 					op := overlay.Interpret(e)
@@ -306,6 +305,24 @@ func c04Features(cs c04Case) (finding map[string]bool, labels map[string]bool, a
 						finding[clsEmptiedDir] = true
 					}
 				}
+			}
+		}
+	}
+	if n := len(views); n > 0 {
+		final := views[n-1]
+		for _, a := range fileToImplicit {
+			nd, ok := final[a]
+			if !ok || nd.Kind != overlay.Dir || !nd.Implicit {
+				continue
+			}
+			nonDirBelow := false
+			for q, m := range final {
+				if overlay.Under(q, a) && m.Kind != overlay.Dir {
+					nonDirBelow = true
+				}
+			}
+			if !nonDirBelow {
+				finding[clsUnpackStale] = true
 			}
 		}
 	}
@@ -960,6 +977,7 @@ func genC04(col *ev.Collector) func(t *rapid.T) c04Case {
 					style = tarimg.StyleDot
 				}
 				var e tarimg.Entry
+				forceParents := false
 				w := rapid.IntRange(0, 99).Draw(t, "kind")
 				if k == 0 {
 					w = w * 80 / 100 // few whiteouts in the base layer
@@ -978,8 +996,20 @@ func genC04(col *ev.Collector) func(t *rapid.T) c04Case {
 					p := c04DrawPath(t, lower, false)
 					e = tarimg.Entry{Kind: tarimg.KindSymlink, Path: p, Target: c04DrawTarget(t, lower, p), Mode: 0o777}
 				case w < 90:
-					e = tarimg.Entry{Kind: tarimg.KindWhiteout, Path: c04DrawPath(t, lower, true)}
+					// A whiteout marker is only meaningful inside a directory that exists below
+					// (what a marker in a non-existing directory implies is not specified): climb
+					// to the deepest ancestor whose parent is a directory of the lower view.
+					p := c04DrawPath(t, lower, true)
+					for path.Dir(p) != "." {
+						if n, ok := lower["/"+path.Dir(p)]; ok && n.Kind == overlay.Dir {
+							break
+						}
+						p = path.Dir(p)
+					}
+					e = tarimg.Entry{Kind: tarimg.KindWhiteout, Path: p}
 				default:
+					// An opaque marker: on a directory of the lower view, or on a directory the
+					// same layer carries an explicit entry for (added here when missing).
 					p := c04DrawPath(t, lower, true)
 					if n, ok := lower["/"+p]; ok && n.Kind != overlay.Dir {
 						p = path.Dir(p)
@@ -987,12 +1017,15 @@ func genC04(col *ev.Collector) func(t *rapid.T) c04Case {
 					if p == "." {
 						p = c04DrawFreshPath(t)
 					}
+					if n, ok := lower["/"+p]; !ok || n.Kind != overlay.Dir {
+						forceParents = true
+					}
 					e = tarimg.Entry{Kind: tarimg.KindOpaque, Path: p}
 				}
 				e.Style = style
 				// explicit parent entries (before the child), carrying the mode the directory
 				// has below when it exists there
-				if parents != 0 {
+				if parents != 0 || forceParents {
 					var anc []string
 					top := e.Path
 					if e.Kind == tarimg.KindOpaque {
@@ -1002,7 +1035,7 @@ func genC04(col *ev.Collector) func(t *rapid.T) c04Case {
 						anc = append([]string{a}, anc...)
 					}
 					for _, a := range anc {
-						if parents == 2 && !rapid.Bool().Draw(t, "parent_explicit") {
+						if parents == 2 && !forceParents && !rapid.Bool().Draw(t, "parent_explicit") {
 							continue
 						}
 						mode := int64(0o755)
@@ -1037,7 +1070,7 @@ func genC04(col *ev.Collector) func(t *rapid.T) c04Case {
 			}
 			if len(L.Entries) == 0 {
 				// every draw was suppressed: keep the layer non-empty with a harmless file
-				L.Entries = append(L.Entries, tarimg.F(fmt.Sprintf("c/keep%d", k), "k", 0o644))
+				L.Entries = append(L.Entries, tarimg.F(fmt.Sprintf("keep%d", k), "k", 0o644))
 			}
 			lower = overlay.Apply(lower, *L, k)
 		}
